@@ -120,6 +120,13 @@ func c19History(k *fw.K) {
 			case 0, 3:
 				t[i] = float64(r.Intn(3))
 				p[i] = float64(r.Intn(3))
+				// a zero label may carry either sign (math.Round(-0.2), -1 * 0): -0 and +0 are the same label, their difference is exactly 0
+				if t[i] == 0 && r.Intn(3) == 0 {
+					t[i] = math.Copysign(0, -1)
+				}
+				if p[i] == 0 && r.Intn(3) == 0 {
+					p[i] = math.Copysign(0, -1)
+				}
 			case 5: // distinct ADJACENT float64 values of ordinary magnitude (0.1+0.2 against 0.3): different labels
 				t[i] = []float64{0.3, 1, 2, 0.1, 7, 1e6, -3, 9007199254740992}[r.Intn(8)]
 				p[i] = t[i]
